@@ -277,13 +277,23 @@ fn addr_of(req: &Value) -> Result<P2PKHAddress, E> {
 }
 
 fn bsm_sign(req: &Value) -> R {
-    let key = mk_key(req, "key", "compressed")?;
-    let msg = hx(req, "msg")?;
+    let key = if bo(req, "warm") {
+        // the key object is USED in the other compression form first (public key, point, WIF, address), then switched
+        let c = req.get("compressed").and_then(|x| x.as_bool()).unwrap_or(true);
+        let k0 = PrivateKey::from_bytes(&hx(req, "key")?).map_err(|e| drv(format!("key: {}", e)))?.compress_public_key(!c);
+        let _ = (k0.to_public_key().map(|p| p.to_p2pkh_address().is_ok()).is_ok(), k0.get_point().len(), k0.to_wif().is_ok());
+        k0.compress_public_key(c)
+    } else {
+        mk_key(req, "key", "compressed")?
+    };
+    let msg = msg_of(req)?;
     let sig = match hx_opt(req, "k")? {
         Some(k) => BSM::sign_message_with_k(&key, &PrivateKey::from_bytes(&k).map_err(|e| drv(format!("k: {}", e)))?, &msg).map_err(lib)?,
         None => BSM::sign_message(&key, &msg).map_err(lib)?,
     };
     let mut o = sig_json(&sig);
+    o["key_address_hash"] = sub(|| key.to_public_key().and_then(|p| p.to_p2pkh_address()), |a| h(&a.to_pubkey_hash()));
+    o["verify_own_address"] = sub(|| key.to_public_key().and_then(|p| p.to_p2pkh_address()).and_then(|a| BSM::verify_message(&msg, &sig, &a)), |b| json!(b));
     // verification with the in-memory signature object (no compact trip) against the requested address
     if req.get("addr_hash").is_some() || req.get("address").is_some() {
         let a = addr_of(req)?;
@@ -293,7 +303,7 @@ fn bsm_sign(req: &Value) -> R {
 }
 
 fn bsm_verify(req: &Value) -> R {
-    let msg = hx(req, "msg")?;
+    let msg = msg_of(req)?;
     let a = addr_of(req)?;
     let sig = match guarded(|| Signature::from_compact_bytes(&hx(req, "compact").unwrap_or_default())) {
         Ok(Ok(s)) => s,
@@ -383,6 +393,34 @@ fn digest_chunks(req: &Value) -> R {
         }
         outs.push(d.finalize_fixed().to_vec());
         outs
+    }
+    /// clone / clone_from between adapters whose reverse flags differ: the target must become an exact copy of the source
+    fn cloned<D: Update + FixedOutput + ReversibleDigest + Default + Clone>(chunks: &[Vec<u8>], rev: bool) -> Vec<Vec<u8>> {
+        let mut src = if rev { D::default().reverse() } else { D::default() };
+        let cut = chunks.len() / 2;
+        for c in &chunks[..cut] {
+            src.update(c);
+        }
+        // target: other flag, already fed with junk
+        let mut dst = if rev { D::default() } else { D::default().reverse() };
+        dst.update(b"junk that clone_from must overwrite");
+        dst.clone_from(&src);
+        let mut cl = src.clone();
+        for c in &chunks[cut..] {
+            src.update(c);
+            dst.update(c);
+            cl.update(c);
+        }
+        vec![src.finalize_fixed().to_vec(), dst.finalize_fixed().to_vec(), cl.finalize_fixed().to_vec()]
+    }
+    if bo(req, "cloned") {
+        let outs = match st(req, "kind")? {
+            "sha256d" => cloned::<bsv::hash::sha256d_digest::Sha256d>(&chunks, rev),
+            "sha256r" => cloned::<Sha256r>(&chunks, rev),
+            "hash160" => cloned::<bsv::hash::hash160_digest::Hash160>(&chunks, rev),
+            k => return Err(drv(format!("kind {} has no cloned mode", k))),
+        };
+        return Ok(Value::Array(outs.iter().map(|o| h(o)).collect()));
     }
     if bo(req, "reuse") {
         let outs = match st(req, "kind")? {
